@@ -6,4 +6,5 @@ cd "$(dirname "$(readlink -f "$0")")"
 VERIF_DIR=$(pwd); export VERIF_DIR
 ./build.sh >/dev/null
 ./build.sh race >/dev/null || true
+./check SELF | tail -1 || echo "warning: explorer self-test failed"
 echo "setup ok"
